@@ -75,6 +75,16 @@ class ExprTr:
 
     def tr(self, n):
         if isinstance(n, ast.Constant):
+            if isinstance(n.value, float) and n.value >= 0 and n.value == n.value and \
+                    n.value != float("inf"):
+                # a float literal is an exact dyadic rational: n / 2^k
+                from fractions import Fraction
+                fr = Fraction(n.value)
+                if fr.denominator == 1:
+                    return "(Num.ofNat {})".format(fr.numerator)
+                if fr.denominator <= 2 ** 20 and fr.numerator <= 2 ** 40:
+                    return "(Num.div (Num.ofNat {}) (Num.ofNat {}))".format(fr.numerator, fr.denominator)
+                self.bad(n, "float constant {!r} is not a short dyadic rational".format(n.value))
             if isinstance(n.value, bool) or not isinstance(n.value, int) or n.value < 0:
                 self.bad(n, "constant {!r}".format(n.value))
             return "(Num.ofNat {})".format(n.value)
